@@ -212,8 +212,11 @@ func (f MultipartForm) Do(w http.ResponseWriter, r *http.Request, exec graphql.G
 
 	rc, gerr := exec.CreateOperationContext(r.Context(), &params)
 	if gerr != nil {
-		resp := exec.DispatchError(graphql.WithOperationContext(r.Context(), rc), gerr)
+		// the status follows the errors the executor returned, not what the error presenter makes of them
+		// (presenters commonly edit the *gqlerror.Error in place): decide it before DispatchError, as the
+		// other transports do
 		w.WriteHeader(statusForContentType(responseContentType, gerr))
+		resp := exec.DispatchError(graphql.WithOperationContext(r.Context(), rc), gerr)
 		writeJson(w, resp)
 		return
 	}
